@@ -90,6 +90,15 @@ class Report:
         known = {(k["property"], k["rule"], k["key"]) for k in self.load_known()}
         return [f for f in self.findings if f.ident() not in known]
 
+    def below_floor(self):
+        return [rid for rid, r in self.rules.items() if r["instances"] < r["floor"]]
+
+    def outcome(self):
+        """'violation' (a rule reported a construct) | 'refused' (an anchor vanished, nothing reported) | 'pass'"""
+        if self.new_findings():
+            return "violation"
+        return "refused" if self.below_floor() else "pass"
+
     def load_known(self):
         p = os.path.join(VERIF, "known_findings.json")
         if not os.path.exists(p):
@@ -98,14 +107,19 @@ class Report:
             return json.load(f).get("known", [])
 
     def finish(self, write: bool = True) -> int:
-        for rid, r in self.rules.items():
-            if r["instances"] < r["floor"]:
-                raise AnalysisError(f"rule {rid} matched {r['instances']} instance(s), floor is {r['floor']}: "
-                                    f"the anchor it is meant to inspect has vanished ({r['text']})")
         known = {(k["property"], k["rule"], k["key"]): k for k in self.load_known()}
         new, listed = [], []
         for f in self.findings:
             (listed if f.ident() in known else new).append(f)
+        for rid, r in self.rules.items():
+            if r["instances"] < r["floor"]:
+                msg = (f"rule {rid} matched {r['instances']} instance(s), floor is {r['floor']}: "
+                       f"the anchor it is meant to inspect has vanished ({r['text']})")
+                if not new:
+                    raise AnalysisError(msg)
+                # a violation decided by a rule that did find its construct stands on its own; the
+                # vanished anchor of another rule is reported next to it
+                self.note("UNDECIDED " + msg)
         code = 1 if new else 0
         wall = time.time() - self.t0
         replay_paths = []
